@@ -8,7 +8,7 @@ DST=/verif/seeded/$PID-$TAG
 mkdir -p $DST
 cp $SRC/patch.diff $DST/patch.diff
 cp $SRC/NOTES.md $DST/NOTES.md 2>/dev/null
-for f in $SRC/demo* $SRC/run_demo.sh; do [ -f "$f" ] && cp "$f" $DST/; done
+for f in $SRC/*; do case "$f" in *.log|*/patch.diff|*/NOTES.md) ;; *) [ -f "$f" ] && cp "$f" $DST/ ;; esac; done   # demo, wrapper and helper files
 W=$(mktemp -d /tmp/sv-XXXXXX); rmdir $W
 git -C /repo worktree add --detach $W HEAD >/dev/null 2>&1
 cleanup() { git -C /repo worktree remove --force $W >/dev/null 2>&1; rm -rf $W ${W}_lib; git -C /repo worktree prune; }
